@@ -1,6 +1,6 @@
 (* C02 — property theorems only (each closed by `exact <lemma>` and followed by Print Assumptions). *)
 From Coq Require Import List NArith Bool Arith Permutation Sorted.
-From MW Require Import Common.Str C01.Model C02.Model C02.Proofs C02.ProofsQuotes C02.ModelLines C02.ProofsLines.
+From MW Require Import Common.Str C01.Model C02.Model C02.Proofs C02.ProofsQuotes C02.ModelLines C02.ProofsLines C02.ModelApo C02.ProofsApo.
 Import ListNotations.
 
 (* Sections (core.py:90-146,178-193): for every sequence of headings (any levels, any captions) and blocks, the
@@ -110,3 +110,25 @@ Example C02_lists_text_example :
   leaves_l (den_list (line_fuel ex_lines) ex_lines) = map (fun w => (w, false, false)) [1; 2; 3; 4; 5; 6; 7; 8; 9]%N.
 Proof. exact text_in_order_example. Qed.
 Print Assumptions C02_lists_text_example.
+
+(* Apostrophe runs ONE apostrophe longer than the markup (''Hamlet'''s, L'''arbre'', '''Lear''''s, L''''arbre''': C02/ModelApo.v):
+   for every line of at most 8 runs with exactly one such run, all styles closed at the end of the line and - when the long run
+   has three apostrophes - no other run of three, compute_path (both extreme tie-breaking orders of sort_states) returns the
+   denoted path: the surplus apostrophe is literal text (apocount + 1 at that run), the rest of the run toggles italic / bold,
+   every other run toggles as written.  Bounded (646 lines), closed by computation; the real ParseSingleQuote on such lines in
+   all block contexts is the subject of the document search (vt/props/c02.py, family "apostrophe-run"). *)
+Theorem C02_quotes_surplus_apostrophe_bounded : forall rs : list qrun,
+  length rs <= surplus_bound -> surplus_line rs = true ->
+  compute_path stable_sort (map count_of rs) = Ok (apo_path 0 false false rs) /\
+  compute_path antistable_sort (map count_of rs) = Ok (apo_path 0 false false rs).
+Proof. exact quotes_surplus_bounded. Qed.
+Print Assumptions C02_quotes_surplus_apostrophe_bounded.
+
+Example C02_quotes_surplus_examples :
+  surplus_line [RI; RAI] = true /\ apo_path 0 false false [RI; RAI] = [mkst 0 false true; mkst 1 false false] /\
+  surplus_line [RAI; RI] = true /\ apo_path 0 false false [RAI; RI] = [mkst 1 false true; mkst 1 false false] /\
+  surplus_line [RB; RAB] = true /\ surplus_line [RAB; RB] = true /\ surplus_line [RI; RB; RAB; RI] = true /\
+  surplus_line [RB; RB; RI; RAI] = false /\
+  length (filter surplus_line (lines_upto surplus_bound)) = 646.
+Proof. exact quotes_surplus_examples. Qed.
+Print Assumptions C02_quotes_surplus_examples.
